@@ -34,6 +34,34 @@ def run(tier, repo):
     for p in ("dtls::parse_dtls_plaintext_records", "dtls::parse_dtls_record_with_header"):
         if res.get(p) and "code" in res[p]:
             repetition_progress(rp, res[p]["code"], p.split("::")[-1], "src/dtls.rs")
+    # is_fragment(): true exactly for Handshake messages whose body is the opaque Fragment
+    from ..aeval import AEval, Unknown, ANY
+    rp.rule("IS-FRAGMENT", "DTLSMessage::is_fragment evaluated abstractly for every message variant and every handshake body variant: true iff Handshake with body Fragment")
+    fi = F.fn("dtls::DTLSMessage::<'a>::is_fragment")
+    if rp.check(fi is not None, "IS-FRAGMENT", "present", "src/dtls.rs", "DTLSMessage::is_fragment not found"):
+        msg = F.adts.get("dtls::DTLSMessage")
+        body = F.adts.get("dtls::DTLSMessageHandshakeBody")
+        ncell = 0
+        for mv in (msg["variants"] if msg else []):
+            if mv["name"] == "Handshake":
+                for bv in body["variants"]:
+                    val = ("enum", "dtls::DTLSMessage::Handshake", [("rec", {"body": ("enum", "dtls::DTLSMessageHandshakeBody::" + bv["name"], [ANY] * len(bv["fields"]))})])
+                    want = bv["name"] == "Fragment"
+                    try:
+                        r = AEval(F).call_fn(fi["path"], [val])
+                    except Unknown as u:
+                        r = ("unknown", str(u))
+                    ncell += 1
+                    rp.check(r == ("bool", want), "IS-FRAGMENT", "Handshake/" + bv["name"], site(fi), "is_fragment() of a Handshake message with body %s is %s, expected %s" % (bv["name"], r, want), expected=want, found=r)
+            else:
+                val = ("enum", "dtls::DTLSMessage::" + mv["name"], [ANY] * len(mv["fields"]))
+                try:
+                    r = AEval(F).call_fn(fi["path"], [val])
+                except Unknown as u:
+                    r = ("unknown", str(u))
+                ncell += 1
+                rp.check(r == ("bool", False), "IS-FRAGMENT", mv["name"], site(fi), "is_fragment() of %s is %s, expected false" % (mv["name"], r), expected=False, found=r)
+        rp.floor("is_fragment_cells", ncell, 20)
     rp.floor("grammar_functions", len(res), 7)
     rp.assume("nom 7.1.3 combinator semantics; nom-derive primitive impls")
     return rp.finish(level="other", explanation="Static grammar extraction of the DTLS record, handshake-header, fragment and body parsers compared with the RFC 6347 grammar (13-byte header with 16/48-bit split, 12-byte handshake header, fragment predicate offset>0 or fragment_length<length evaluated before type dispatch, bodies confined to fragment_length bytes).")
